@@ -151,6 +151,50 @@ class _Basename:
         }
 
 
+# ------------------------------------------------------------------------------------------------ name accessors
+# full_name is the stored name (inlined); the other accessors are functions of its '.'-separated components, which
+# `__init__@basename` ties to the directories and the short name of the file (post#name-components).  specs/c09.py keeps
+# them as uninterpreted interface values ("their relation to full_name is C15's business").
+def _seq_eq(a, b):
+    return c05._seq_eq_str(a, b)
+
+
+@contract(DEF + ".name_components", props=P)
+class _DefNameComponents:
+    returns = SeqOf(Str)
+
+    def post(s):
+        return {"the-components-of-the-full-name": _seq_eq(s.result, PARTS(s.self._name))}
+
+
+@contract(DEF + ".short_name", props=P)
+class _DefShortName:
+    returns = Str
+
+    def post(s):
+        c = PARTS(s.self._name)
+        return {"last-component": EQ(s.result, AT(c, LEN(c) - 1))}
+
+
+@contract(DEF + ".root_namespace", props=P)
+class _DefRootNamespace:
+    returns = Str
+
+    def post(s):
+        return {"first-component": EQ(s.result, AT(PARTS(s.self._name), 0))}
+
+
+@contract(DEF + ".full_namespace", props=P)
+class _DefFullNamespace:
+    returns = Str
+
+    def post(s):
+        c = PARTS(s.self._name)
+        r = PARTS(s.result)
+        return {"components-are-all-but-the-last": IMPLIES(LEN(c) >= 2, lambda: AND(
+            LEN(r) == LEN(c) - 1, FORALL_IDX(r, lambda i, x: x == AT(c, i))))}
+
+
 def _register_parse_decimal():
     """`_parse_decimal_number` exists only in a tree with the fix notes/C15-fix-1.patch (strict decimal parsing)."""
     from pyvc.frontend import load_repo
